@@ -12,6 +12,7 @@
 -/
 import Model.Stream
 import Proofs.Stream
+import Proofs.ScannerLimit
 
 namespace Jl.C08
 open Jl Jl.Scanner Jl.Stream
@@ -101,5 +102,47 @@ example : errOf (scan 4 8 100 (scan 4 8 100 (Scanner.init 4 [.data [0x61, 0x0A],
 /-- An over-long line (9 bytes without newline, limit 8) ends scanning with `tooLong`. -/
 example : errOf (scan 4 8 100 (Scanner.init 4 [.data [1, 2, 3, 4, 5, 6, 7, 8, 9]])).2 = some .tooLong := by
   decide
+
+/-! ### A line over the importer's limit (`Proofs/ScannerLimit`)
+
+  `ScannerLimit.overlong_line_yields_too_long`: for a reader without faults whose bytes are complete lines that fit, then
+  a line of `maxSize` bytes or more, then anything: whatever the chunking, the scanner yields exactly the lines before it,
+  then no token and the too-long error — and (`overlong_aftermath`) nothing of what lay beyond the limit is ever read;
+  the one thing `bufio.Scanner` can still hand over is the truncated first `maxSize` bytes, WITH the error set
+  (`ScannerLimit.sticky_counterexample`: Go's scanner does that; the importer's `GetRow` looks at the error first). -/
+
+/-- At stream level, under the processor that carries on: the lines before the over-long one have their outcomes, the
+    processor is handed ONE call carrying the too-long error, and nothing after it is processed. -/
+theorem oversize_line_reported_tolerant (cfg : Cfg) (hp : cfg.proc = .tolerant) (reader : List ReadEv)
+    (ws : List WriteEv) (lines : List Bytes) (long rest : Bytes) (hcalm : Calm 100 reader)
+    (hdata : allData reader = ScannerLimit.joinLF lines ++ long ++ rest)
+    (hfit : ScannerLimit.FitLines cfg.maxSize lines) (hlong : cfg.maxSize ≤ long.length)
+    (hnolf : (0x0A : UInt8) ∉ long.take cfg.maxSize)
+    (hle : cfg.initSize ≤ cfg.maxSize) (hpow : cfg.maxSize ≤ cfg.initSize * 2 ^ 200)
+    (hws : ∀ w ∈ ws, w = WriteEv.ok) (os : List LineOutcome)
+    (hmap : mapOutcomes cfg (lines.map dropCR) = .ok os) :
+    stream cfg reader ws =
+      .ok ⟨none, os.flatMap ScannerLimit.callsOf ++ [(false, some .tooLong)], os.filterMap ScannerLimit.writtenOf⟩ :=
+  ScannerLimit.stream_overlong_tolerant cfg hp reader ws lines long rest hcalm hdata hfit hlong hnolf hle hpow hws os hmap
+
+/-- Under the default processor, every earlier line written: `Stream()` RETURNS the too-long error. -/
+theorem oversize_line_returned_default (cfg : Cfg) (hp : cfg.proc = .default) (reader : List ReadEv)
+    (ws : List WriteEv) (lines : List Bytes) (long rest : Bytes) (hcalm : Calm 100 reader)
+    (hdata : allData reader = ScannerLimit.joinLF lines ++ long ++ rest)
+    (hfit : ScannerLimit.FitLines cfg.maxSize lines) (hlong : cfg.maxSize ≤ long.length)
+    (hnolf : (0x0A : UInt8) ∉ long.take cfg.maxSize)
+    (hle : cfg.initSize ≤ cfg.maxSize) (hpow : cfg.maxSize ≤ cfg.initSize * 2 ^ 200)
+    (hws : ∀ w ∈ ws, w = WriteEv.ok) (bs : List Bytes)
+    (hmap : mapOutcomes cfg (lines.map dropCR) = .ok (bs.map .written)) :
+    stream cfg reader ws =
+      .ok ⟨some .tooLong, List.replicate bs.length (true, none) ++ [(false, some .tooLong)], bs⟩ :=
+  ScannerLimit.stream_overlong_default_all_written cfg hp reader ws lines long rest hcalm hdata hfit hlong hnolf hle hpow hws bs hmap
+
+/-- Once the scanner has an error it keeps it, never asks the reader again, and the only tokens it can still deliver
+    are an initial part of the lines of the bytes ALREADY in its buffer. -/
+theorem scanner_error_is_sticky (i m : Nat) (e : ScanErr) (fuels : List Nat) (s : St) (h : errOf s = some e) :
+    errOf (ScannerLimit.scans i m fuels s).2 = some e ∧ (ScannerLimit.scans i m fuels s).2.script = s.script ∧
+    ScannerLimit.tokensOf (ScannerLimit.scans i m fuels s).1 <+: specLines s.buf :=
+  ScannerLimit.too_long_is_sticky i m e fuels s h
 
 end Jl.C08
